@@ -36,6 +36,14 @@ C['C05'] = dict(level=TV, engine='E1', design='§2 C05',
    technique='SMT equivalence of each emitted right-hand side with the harness-side intended form (canonical binding of referents); syntactic closure read off the emitted text',
    text='Over the zoo and over a family of embedding sites x request time (placeholder / canonical) x 1-2 countries x templates, the real Model.main() is run; the solver shows each emitted equation equal, over all valuations, to its sector-local form / the harness template with referents bound to the canonical FullCode__local variable; closure (unique canonical left-hand sides, no dangling or placeholder name) is read off the text.',
    note='Closure clauses are syntactic (no numbers involved) and enumerated; the semantic clause is decided by z3. Exogenous-text and initial-condition sites cannot embed a name meaningfully and are excluded (stated in evidence).')
+C['C13'] = dict(level=TV, engine='E1', design='§2 C13',
+   technique='SMT equivalence (z3 normal forms, satisfiability query when they differ) of e and rho(e) under the renamed environment over an enumerated expression x map grammar',
+   text='The real list_tokens / replace_token / replace_token_from_lookup are run on every expression of a template grammar (<=7 tokens, adversarial names, all numeric literal forms, strings, calls, lag notation, lists, power, comparisons) and every map of a family incl. swaps, chains and prefix collisions; z3 shows value(e)[n->X_n] == value(rho(e))[rho(n)->X_n] for all valuations with function symbols renamed alike and literals opaque; reported name lists are compared with source-ordered ast names.',
+   note='Grammar bounded and enumerated; numbers symbolic. String/complex literals are opaque constants so any change to them is visible.')
+C['C12'] = dict(level=MC, engine='E2+E1', design='§2 C12',
+   technique='symbolic execution of the real Equation/Term code with symbolic coefficients (z3 reals rendered as placeholders), per-path SMT post-condition; SMT equivalence for create_equation_from_terms',
+   text='Inductive step: an Equation with an optional opaque lead and up to 2 (quick) / 3 (thorough) merged terms whose coefficients are symbolic reals is rendered, one real AddTerm(t) is executed for every t of a signed/bracketed/product/quotient alphabet, and on every path z3 shows value(after) == value(before) + value(t) for all coefficients and valuations; create_equation_from_terms is checked on all lists of length <=3 over an alphabet with interior + signs (sum preserved, argument unchanged).',
+   note='Trusted: SymCoef duck class (renders as placeholder; sign decided by the path condition), DFS driver, translator. Divisor names assumed non-zero.')
 PENDING = {}
 ALL = ['C%02d' % i for i in range(1, 21)]
 checks = []
